@@ -96,9 +96,46 @@ class Ctx:
                 # the design model itself violates its contract: a spec-level
                 # finding, reported by the caller
                 return res
-            tail = "\n".join(res.out.splitlines()[-40:])
-            raise Machinery("TLC failed on %s/%s rc=%s:\n%s" % (spec, cfg, res.rc, tail))
+            lines = [l[:400] for l in res.out.splitlines() if not l.startswith('"') and not l.startswith("<<")]
+            first = next((i for i, l in enumerate(lines) if l.startswith("Error:")), max(0, len(lines) - 25))
+            raise Machinery("TLC failed on %s/%s rc=%s:\n%s" % (spec, cfg, res.rc, "\n".join(lines[first:first + 25])))
         return res
+
+    def binding_demo(self, spec, cfg, path, corrupt, want=3, **kw):
+        """Binding demonstration for a stateless trace specification (ASSUME \\A t : Accept(t)): the trace just
+        validated is re-validated with one recorded field corrupted in up to `want` records; TLC must reject every
+        corrupted record, otherwise the trace specification does not constrain that field (machinery failure).
+        corrupt(rec) returns the corrupted copy of a record or None when the record has nothing to corrupt."""
+        import copy
+        recs = [json.loads(l) for l in open(path)]
+        picked = []
+        order = sorted(range(len(recs)), key=lambda i: (i * 7919) % max(1, len(recs)))
+        for i in order:
+            c = corrupt(copy.deepcopy(recs[i]))
+            if c is not None and c != recs[i]:
+                picked.append(c)
+            if len(picked) >= want:
+                break
+        if not picked:
+            raise Machinery("%s: binding demonstration found no record to corrupt" % spec)
+        cpath = str(path) + ".corrupt"
+        with open(cpath, "w") as f:
+            for c in picked:
+                f.write(json.dumps(c) + "\n")
+        env = dict(kw.pop("env", {}) or {}, TRACE_FILE=cpath)
+        res = self.tlc(spec, cfg, env=env, **kw)
+        rej = set(int(t.strip("<>").split(",")[1]) for t in res.tuples("REJECT"))
+        if len(rej) < len(picked):
+            raise Machinery("%s: binding demonstration - only records %s of %d corrupted records were rejected" % (spec, sorted(rej), len(picked)))
+        self.part("binding_demo_" + spec, corrupted_records=len(picked), rejected=len(rej))
+
+    def require_actions(self, res, names, what):
+        """vacuity guard: every named action of the specification must have fired in the TLC run (-coverage 1)"""
+        cov = res.coverage()
+        missing = [a for a in names if cov.get(a, (0, 0))[1] == 0]
+        if missing:
+            raise Machinery("%s: action(s) %s never fired in the model (vacuous check); coverage=%s" % (what, missing, {k: cov[k] for k in names if k in cov}))
+        self.part("action_coverage_" + what, **{a: {"distinct": cov[a][0], "taken": cov[a][1]} for a in names})
 
     def workfile(self, name):
         d = WORK / ("%s_%d" % (self.pid, os.getpid()))
